@@ -366,6 +366,9 @@ def discharge(o, timeout_ms=20000, use_cvc5=True):
     else:
         o.status = "unknown"
         o.detail = f"z3: {s.reason_unknown()}"
+        if _split_on_goal_ites(o, timeout_ms):
+            o.seconds = time.time() - t0
+            return o
         m = model_by_concretisation(o.hyps, z3.Not(o.goal))
         if m is not None:
             o.status, o.model, o.backend = "failed", m, "z3 (inputs partly concretised)"
@@ -392,6 +395,60 @@ def discharge(o, timeout_ms=20000, use_cvc5=True):
                 o.detail += f"; cvc5 error: {e}"
     o.seconds = time.time() - t0
     return o
+
+
+def _ite_conditions(f, limit=6):
+    out, seen, stack = [], set(), [f]
+    while stack:
+        t = stack.pop()
+        if t.get_id() in seen or not z3.is_app(t):
+            continue
+        seen.add(t.get_id())
+        if t.decl().kind() == z3.Z3_OP_ITE and z3.is_arith(t):
+            c = t.arg(0)
+            if all(not c.eq(x) for x in out):
+                out.append(c)
+                if len(out) > limit:
+                    return None
+        stack.extend(t.children())
+    return out
+
+
+def _split_on_goal_ites(o, timeout_ms):
+    """Non-linear goals mentioning min/max/if-else terms: decide them case by case (each case is ite-free and is
+    put in sum-of-monomials form).  Proof of a case may use a subset of the hypotheses; a counter-model is taken
+    only from the FULL hypothesis set."""
+    conds = _ite_conditions(o.goal)
+    if not conds:
+        return False
+    import itertools
+
+    sub = relevant_hyps(o.hyps, o.goal, 2) if len(o.hyps) > 40 else list(o.hyps)
+    for vals in itertools.product([True, False], repeat=len(conds)):
+        pairs = [(c, z3.BoolVal(v)) for c, v in zip(conds, vals)]
+        case = [c if v else z3.Not(c) for c, v in zip(conds, vals)]
+        g = z3.simplify(z3.substitute(o.goal, *pairs), som=True)
+        decided = False
+        for hy in (sub, o.hyps):
+            sc = z3.Solver()
+            sc.set("timeout", min(timeout_ms, 10000))
+            for h in hy:
+                sc.add(h)
+            sc.add(*case)
+            sc.add(z3.Not(g))
+            r = sc.check()
+            if r == z3.unsat:
+                decided = True
+                break
+            if r == z3.sat and hy is o.hyps:
+                o.status, o.model, o.backend = "failed", sc.model(), "z3 (case split on the goal's conditionals)"
+                o.models = [o.model]
+                return True
+        if not decided:
+            return False
+    o.status, o.backend = "discharged", "z3 (case split on the goal's conditionals)"
+    o.detail = f"{2 ** len(conds)} cases"
+    return True
 
 
 _CMP = (z3.Z3_OP_LE, z3.Z3_OP_GE, z3.Z3_OP_LT, z3.Z3_OP_GT, z3.Z3_OP_EQ, z3.Z3_OP_DISTINCT)
